@@ -1,10 +1,11 @@
 #!/bin/sh
-# usage: tools_try_seeded.sh <patch.diff> <property> [extra args]  -- apply to /repo, run the quick check, revert.
-P="$1"; ID="$2"; shift 2
-cd /repo || exit 2
-git status --short | grep -v '^??' | grep -q . && { echo "repo not clean"; exit 2; }
+# usage: tools_try_seeded.sh <scratch-worktree> <patch.diff> <property> [extra args]
+# Applies the seeded change in the scratch worktree (never in /repo), runs the quick check against
+# that worktree (VERIF_REPO), and reverts the worktree.
+WT="$1"; P="$2"; ID="$3"; shift 3
+cd "$WT" || exit 2
+git checkout -q -- . ; git clean -q -fd -e _seeded
 git apply "$P" || { echo "patch does not apply"; exit 2; }
-cd /verif && ./check "$ID" quick --no-evidence "$@" 2>&1 | grep -E "^(VIOLATION|violation|minimised|HARNESS|C[0-9]+:|C20 tags)" | cut -c1-600
-RC=$?
-cd /repo && git checkout -- . 
-echo "reverted; repo status: $(git status --short | grep -v '^??' | wc -l) modified files"
+cd /verif && VERIF_REPO="$WT" ./check "$ID" quick --no-evidence "$@" 2>&1 | grep -E "^(VIOLATION|violation|minimised|HARNESS|KNOWN|C[0-9]+:|C20 tags)" | cut -c1-700
+cd "$WT" && git checkout -q -- . && git clean -q -fd -e _seeded
+echo "worktree reverted"
